@@ -12,7 +12,7 @@ import numpy
 
 from akext import _lib
 from akext._util import (FILENAME, CastError, arg_int64, arg_bool, arg_string, cast_int64, cast_bool, cast_string,
-                         dict2parameters, parameters2dict, typestrs_arg, is_iterable, _badarg)
+                         dict2parameters, parameters2dict, typestrs_arg, is_iterable, _badarg, InstanceRegistry)
 
 
 def _fn(line):
@@ -20,12 +20,14 @@ def _fn(line):
 
 
 CLASS_BY_ID = {}
+INSTANCES = InstanceRegistry(lambda h: _lib.L.akp_form_raw(h))
+_Registered = INSTANCES.metaclass()
 
 
 def _new(cls, h):
     self = object.__new__(cls)
     self._h = h
-    return self
+    return INSTANCES.add(self)
 
 
 def share(h):
@@ -33,6 +35,10 @@ def share(h):
     if not h:
         return None
     cls = CLASS_BY_ID.get(_lib.L.akp_form_classid(h), Form)
+    existing = INSTANCES.find(h, cls)
+    if existing is not None:
+        _lib.L.akp_form_free(h)
+        return existing
     return _new(cls, h)
 
 
@@ -70,7 +76,7 @@ def _str2form(s, what):
     return _lib.rc(_lib.L.akp_index_str2form(arg_string(s, what)))
 
 
-class Form(object):
+class Form(object, metaclass=_Registered):
     __slots__ = ("_h", "__weakref__")
 
     def __init__(self, *args, **kwargs):
